@@ -8,14 +8,24 @@ TF = "src/allmydata/util/time_format.py"
 AB = "src/allmydata/util/abbreviate.py"
 CL = "src/allmydata/client.py"
 
+SIZE_MATCH = 'm = re.match(r"^(\\d+)\\s*([KMGTPE]?[I]?[B]?)$", s.upper())'
+DUR_PATTERN = 'pattern = rf"^\\s*(\\d+)\\s*({unit_pattern})\\s*$"'
+DUR_MATCH = "    match = re.match(pattern, s, re.IGNORECASE)"
+SIZE_DEF = "def parse_abbreviated_size(s):\n"
+DATE_GUARD = '    if not re.fullmatch(r"\\d{4}-\\d{2}-\\d{2}", s):'
+ISO_MATCH = "    m = _conversion_re.match(isotime)"
+ISO_PAT = (r'r"(?P<year>\d{4})-(?P<month>\d{2})-(?P<day>\d{2})[T_ ](?P<hour>\d{2}):(?P<minute>\d{2}):(?P<second>\d{2})'
+           r'(?P<subsecond>\.\d+)?"')
+ISO_DEF = "def iso_utc_time_to_seconds(isotime, _conversion_re=re.compile(" + ISO_PAT + ")):"
+
 MUTANTS = [
     # ---- C48.1 parse_duration grammar / table
     M("dur-end-anchor-dropped", TF,
-      'pattern = rf"^\\s*(\\d+)\\s*({unit_pattern})\\s*$"', 'pattern = rf"^\\s*(\\d+)\\s*({unit_pattern})\\s*"', "C48.1"),
+      DUR_PATTERN, 'pattern = rf"^\\s*(\\d+)\\s*({unit_pattern})\\s*"', "C48.1"),
     M("dur-signed-number", TF,
-      'pattern = rf"^\\s*(\\d+)\\s*({unit_pattern})\\s*$"', 'pattern = rf"^\\s*(-?\\d+)\\s*({unit_pattern})\\s*$"', "C48.1"),
+      DUR_PATTERN, 'pattern = rf"^\\s*(-?\\d+)\\s*({unit_pattern})\\s*$"', "C48.1"),
     M("dur-leading-junk", TF,
-      'pattern = rf"^\\s*(\\d+)\\s*({unit_pattern})\\s*$"', 'pattern = rf"^.*?(\\d+)\\s*({unit_pattern})\\s*$"', "C48.1"),
+      DUR_PATTERN, 'pattern = rf"^.*?(\\d+)\\s*({unit_pattern})\\s*$"', "C48.1"),
     M("dur-unit-without-multiplier", TF,
       '    DAYS1 = "days"\n', '    DAYS1 = "days"\n    WEEKS0 = "week"\n    WEEKS1 = "weeks"\n', "C48.1"),
     M("dur-month-30", TF, "    MONTH = 31*DAY\n", "    MONTH = 30*DAY\n", "C48.1"),
@@ -26,25 +36,25 @@ MUTANTS = [
       '    MONTHS0 = "mo"\n', "", "C48.2",
       edits=[(TF, "        ParseDurationUnitFormat.MONTHS0: MONTH,\n", "")]),
     M("dur-doc-space-required", TF,
-      'pattern = rf"^\\s*(\\d+)\\s*({unit_pattern})\\s*$"', 'pattern = rf"^\\s*(\\d+)\\s+({unit_pattern})\\s*$"', "C48.2"),
+      DUR_PATTERN, 'pattern = rf"^\\s*(\\d+)\\s+({unit_pattern})\\s*$"', "C48.2"),
     # ---- C48.3 parse_abbreviated_size grammar / table
     M("size-signed-number", AB,
-      'm = re.match(r"^(\\d+)([KMGTPE]?[I]?[B]?)$", s.upper())', 'm = re.match(r"^(-?\\d+)([KMGTPE]?[I]?[B]?)$", s.upper())', "C48.3"),
+      SIZE_MATCH, 'm = re.match(r"^(-?\\d+)\\s*([KMGTPE]?[I]?[B]?)$", s.upper())', "C48.3"),
     M("size-suffix-without-multiplier", AB,
-      'm = re.match(r"^(\\d+)([KMGTPE]?[I]?[B]?)$", s.upper())', 'm = re.match(r"^(\\d+)([KMGTPEZ]?[I]?[B]?)$", s.upper())', "C48.3"),
+      SIZE_MATCH, 'm = re.match(r"^(\\d+)\\s*([KMGTPEZ]?[I]?[B]?)$", s.upper())', "C48.3"),
     M("size-bare-i-binary", AB, '                  "I":  1,\n', '                  "I":  1024,\n', "C48.3"),
     M("size-strip-i-too", AB,
       '    if suffix.endswith("B"):\n        suffix = suffix[:-1]\n',
       '    if suffix.endswith("B"):\n        suffix = suffix[:-1]\n    if suffix.endswith("I") and len(suffix) == 1:\n        suffix = "KI"\n',
       "C48.3"),
     M("size-trailing-junk", AB,
-      'm = re.match(r"^(\\d+)([KMGTPE]?[I]?[B]?)$", s.upper())', 'm = re.match(r"^(\\d+)([KMGTPE]?[I]?[B]?)", s.upper())', "C48.3",
+      SIZE_MATCH, 'm = re.match(r"^(\\d+)\\s*([KMGTPE]?[I]?[B]?)", s.upper())', "C48.3",
       note="also caught by test_abbreviate"),
     # ---- C48.4 documented sizes
     M("size-doc-number-too-long", AB,
-      'm = re.match(r"^(\\d+)([KMGTPE]?[I]?[B]?)$", s.upper())', 'm = re.match(r"^(\\d{1,8})([KMGTPE]?[I]?[B]?)$", s.upper())', "C48.4"),
+      SIZE_MATCH, 'm = re.match(r"^(\\d{1,8})\\s*([KMGTPE]?[I]?[B]?)$", s.upper())', "C48.4"),
     M("size-doc-ib-dropped", AB,
-      'm = re.match(r"^(\\d+)([KMGTPE]?[I]?[B]?)$", s.upper())', 'm = re.match(r"^(\\d+)([KMGTPE]?[B]?)$", s.upper())', "C48.4",
+      SIZE_MATCH, 'm = re.match(r"^(\\d+)\\s*([KMGTPE]?[B]?)$", s.upper())', "C48.4",
       note="also caught by test_abbreviate"),
     # ---- C48.5 dates
     M("date-month-width", TF, "(?P<month>\\d{2})", "(?P<month>\\d{1,2})", "C48.5"),
@@ -55,7 +65,9 @@ MUTANTS = [
       '    return int(iso_utc_time_to_seconds(s + "T00:00:00"))', '    return int(iso_utc_time_to_seconds(s + "T12:00:00"))', "C48.5"),
     # ---- C48.6 date grammar consumes the whole value (the missing end anchor is a finding of the unchanged tree;
     # a missing start anchor is reported on a different construct)
-    M("date-search-unanchored", TF, "    m = _conversion_re.match(isotime)", "    m = _conversion_re.search(isotime)", "C48.6"),
+    M("date-search-unanchored", TF, ISO_MATCH, "    m = _conversion_re.search(isotime)", "C48.6",
+      edits=[(TF, DATE_GUARD, "    if not s:")],
+      note="with parse_date's fixed-shape guard intact the same edit is harmless: benign-date-iso-search-guarded"),
     # ---- C48.7 printer within the parser's grammar (a new output shape gets a new construct key)
     M("printer-new-shape", AB,
       '    return r(s/(U*U*U*U*U*U), "E")', '    if s >= U*U*U*U*U*U*U:\n        return "%.3g ZB" % (s/(U*U*U*U*U*U*U))\n    return r(s/(U*U*U*U*U*U), "E")',
@@ -89,9 +101,60 @@ MUTANTS = [
     M("benign-client-temp", CL,
       "            cutoff_date = parse_date(cutoff_date)", "            cutoff_text = cutoff_date\n            cutoff_date = parse_date(cutoff_text)", None),
     # the small repairs of the findings must satisfy the rules
-    M("benign-size-space-repair", AB,
-      'm = re.match(r"^(\\d+)([KMGTPE]?[I]?[B]?)$", s.upper())', 'm = re.match(r"^(\\d+)\\s*([KMGTPE]?[I]?[B]?)$", s.upper())', None),
+    M("benign-size-plain-letters", AB,
+      SIZE_MATCH, 'm = re.match(r"^(\\d+)\\s*([KMGTPE]?I?B?)$", s.upper())', None),
     M("benign-date-end-anchored", TF, "(?P<subsecond>\\.\\d+)?\")):", "(?P<subsecond>\\.\\d+)?$\")):", None),
+    # ---- whole-value grammar through a precompiled pattern and any of match/search/fullmatch (seeded C48-B)
+    M("size-precompiled-search-unanchored", AB,
+      SIZE_DEF, '_SIZE_RE = re.compile(r"(\\d+)\\s*([KMGTPE]?I?B?)$")\n\n' + SIZE_DEF, "C48.3",
+      edits=[(AB, SIZE_MATCH, "m = _SIZE_RE.search(s.upper())")],
+      note="seeded C48-B: '1.5G' is read as 5 GB, 'x12K' as 12000"),
+    M("size-inline-search-unanchored", AB,
+      SIZE_MATCH, 'm = re.search(r"(\\d+)\\s*([KMGTPE]?[I]?[B]?)$", s.upper())', "C48.3"),
+    M("size-local-compiled-end-dropped", AB,
+      SIZE_MATCH, 'size_re = re.compile(r"(\\d+)\\s*([KMGTPE]?[I]?[B]?)")\n    m = size_re.match(s.upper())', "C48.3",
+      note="also caught by test_abbreviate"),
+    M("size-multiline-flag", AB,
+      SIZE_DEF, '_SIZE_RE = re.compile(r"^(\\d+)\\s*([KMGTPE]?[I]?[B]?)$", flags=re.MULTILINE)\n\n' + SIZE_DEF, "C48.3",
+      edits=[(AB, SIZE_MATCH, "m = _SIZE_RE.match(s.upper())")],
+      note="under MULTILINE '$' also ends at a newline: the continuation-line value '10G\\nx' is read as 10 GB"),
+    M("dur-precompiled-search-unanchored", TF,
+      DUR_PATTERN, 'pattern = re.compile(rf"(\\d+)\\s*({unit_pattern})\\s*$", re.IGNORECASE)', "C48.1",
+      edits=[(TF, DUR_MATCH, "    match = pattern.search(s)")]),
+    M("dur-inline-search-unanchored", TF,
+      DUR_PATTERN, 'pattern = rf"(\\d+)\\s*({unit_pattern})\\s*$"', "C48.1",
+      edits=[(TF, DUR_MATCH, "    match = re.search(pattern, s, re.IGNORECASE)")]),
+    M("dur-multiline-search", TF,
+      DUR_MATCH, "    match = re.search(pattern, s, re.IGNORECASE | re.MULTILINE)", "C48.1"),
+    M("date-guard-precompiled-search", TF,
+      "def parse_date(s):\n", '_DAY_RE = re.compile(r"\\d{4}-\\d{2}-\\d{2}$")\n\ndef parse_date(s):\n', "C48.6",
+      edits=[(TF, DATE_GUARD, "    if not _DAY_RE.search(s):")],
+      note="'2009-03-18T01:02:03 2009-03-18' passes the guard and is read as 01:02:03"),
+    M("date-guard-end-dropped", TF, DATE_GUARD, '    if not re.match(r"\\d{4}-\\d{2}-\\d{2}", s):', "C48.6"),
+    M("date-guard-not-gating", TF,
+      DATE_GUARD + '\n        raise ValueError(s, "not a YYYY-MM-DD date")\n',
+      DATE_GUARD + '\n        log_bad_date = True\n', "C48.6"),
+    M("date-guard-loose-shape", TF, DATE_GUARD, '    if not re.fullmatch(r"\\d{4}-\\d{2}-\\d{2}.*", s):', "C48.6"),
+    M("benign-size-precompiled-module", AB,
+      SIZE_DEF, '_SIZE_RE = re.compile(r"^(\\d+)\\s*([KMGTPE]?[I]?[B]?)$")\n\n' + SIZE_DEF, None,
+      edits=[(AB, SIZE_MATCH, "m = _SIZE_RE.match(s.upper())")]),
+    M("benign-size-compiled-fullmatch", AB,
+      SIZE_MATCH, 'size_re = re.compile(r"(\\d+)\\s*([KMGTPE]?[I]?[B]?)")\n    m = size_re.fullmatch(s.upper())', None),
+    M("benign-size-search-string-anchors", AB,
+      SIZE_MATCH, 'm = re.search(r"\\A(\\d+)\\s*([KMGTPE]?[I]?[B]?)\\Z", s.upper())', None),
+    M("benign-dur-precompiled-kwflags", TF,
+      DUR_MATCH, "    duration_re = re.compile(pattern, flags=re.IGNORECASE)\n    match = duration_re.match(s)", None),
+    M("benign-dur-search-anchored", TF, DUR_MATCH, "    match = re.search(pattern, s, re.I)", None),
+    M("benign-date-guard-precompiled", TF,
+      "def parse_date(s):\n", '_DAY_RE = re.compile(r"\\d{4}-\\d{2}-\\d{2}")\n\ndef parse_date(s):\n', None,
+      edits=[(TF, DATE_GUARD, "    if _DAY_RE.fullmatch(s) is None:")]),
+    M("benign-date-iso-search-guarded", TF, ISO_MATCH, "    m = _conversion_re.search(isotime)", None,
+      note="parse_date's guard admits only YYYY-MM-DD, so the unanchored search starts at the first character anyway"),
+    M("benign-date-iso-module-constant", TF,
+      ISO_DEF, "_ISO_RE = re.compile(" + ISO_PAT + ")\n\ndef iso_utc_time_to_seconds(isotime):", None,
+      edits=[(TF, ISO_MATCH, "    m = _ISO_RE.match(isotime)")]),
+    M("benign-date-iso-match-is-none", TF,
+      ISO_MATCH + "\n    if not m:", ISO_MATCH + "\n    if m is None:", None),
     # ---- vanished anchor
     M("vanish-parse-duration", TF, "def parse_duration(s):", "def parse_duration_string(s):", "ANALYSIS-ERROR"),
 ]
